@@ -26,17 +26,40 @@ def _calls(fn, first_arg_dump):
     return out
 
 
+# For each site: the FEMAttribute(<name>, <ids>, <data>) call that builds a nodal
+# variable of the result is located by its first argument; what decides the
+# flag is the binding EXPRESSION, not the statement shape around it:
+#   by id      <data> is  X.loc[E].values  and <ids> is the same expression E,
+#              where E is one of the spellings of "the ids of the new node table";
+#   positional one of the listed positional forms (the code before the fixes).
+# Anything else fails closed.
+NEW_NODE_IDS = [_e(s) for s in ('self.nodes.ids', 'new_nodes.ids', 'nodes.ids', 'node_ids')]
 SITES = {
-    'useless_by_id': ('remove_useless_nodes', _e('value.name'), {
-        (_e('self.nodes.ids'), _e('value.data[useful_indices]')): False,
-        (_e('self.nodes.ids'), _e('value.loc[self.nodes.ids].values')): True}),
-    'first_order_by_id': ('to_first_order', _e('k'), {
-        (_e('v.ids[filter_]'), _e('v.loc[filter_].values')): False,
-        (_e('nodes.ids'), _e('v.loc[nodes.ids].values')): True}),
-    'surface_by_id': ('to_surface', _e('k'), {
-        (_e('node_ids'), _e('v.iloc[unique_indices].values')): False,
-        (_e('node_ids'), _e('v.loc[node_ids].values')): True}),
+    'useless_by_id': ('remove_useless_nodes', _e('value.name'),
+                      [(_e('self.nodes.ids'), _e('value.data[useful_indices]'))]),
+    'first_order_by_id': ('to_first_order', _e('k'),
+                          [(_e('v.ids[filter_]'), _e('v.loc[filter_].values'))]),
+    'surface_by_id': ('to_surface', _e('k'),
+                      [(_e('node_ids'), _e('v.iloc[unique_indices].values'))]),
 }
+
+
+def _binding(call, positional_forms, where):
+    ids_arg, data_arg = call.args[1], call.args[2]
+    key = (ast.dump(ids_arg), ast.dump(data_arg))
+    if key in positional_forms:
+        return False
+    # X.loc[E].values with the label expression E also used as the ids of the new variable
+    if isinstance(data_arg, ast.Attribute) and data_arg.attr == 'values' \
+            and isinstance(data_arg.value, ast.Subscript) \
+            and isinstance(data_arg.value.value, ast.Attribute) and data_arg.value.value.attr == 'loc' \
+            and isinstance(data_arg.value.value.value, ast.Name):
+        label = data_arg.value.slice
+        if ast.dump(label) == ast.dump(ids_arg) and ast.dump(label) in NEW_NODE_IDS:
+            return True
+    raise TranslateError(f'{where}: unrecognised way of carrying nodal variables over')
+
+
 FIELDS = ['useless_by_id', 'first_order_by_id', 'surface_by_id']
 HASHED = ['remove_useless_nodes', 'to_first_order', 'to_surface', 'to_facets', 'cut_with_element_ids',
           'cut_with_element_type', 'cut_with_node_ids', 'cut_elements_with_node_ids', '_elements_exist',
@@ -132,7 +155,7 @@ def translate(repo):
         consumed['fem_data.py:FEMData.' + name] = hashlib.sha256(
             ast.get_source_segment(src, fns[name][0]).encode()).hexdigest()
     cfg = {}
-    for flag, (fname, first, forms) in SITES.items():
+    for flag, (fname, first, positional_forms) in SITES.items():
         calls = _calls(fns[fname][0], first)
         if len(calls) != 1:
             raise TranslateError(f'{fname}: expected one FEMAttribute(...) call for nodal variables, '
@@ -140,10 +163,7 @@ def translate(repo):
         c = calls[0]
         if len(c.args) != 3:
             raise TranslateError(f'{fname}: unexpected FEMAttribute argument list')
-        key = (ast.dump(c.args[1]), ast.dump(c.args[2]))
-        if key not in forms:
-            raise TranslateError(f'{fname}: unrecognised way of carrying nodal variables over')
-        cfg[flag] = forms[key]
+        cfg[flag] = _binding(c, positional_forms, fname)
     check_bodies(repo, consumed)
     return cfg, consumed
 
